@@ -129,6 +129,16 @@ Theorem C04_used_by_source_by_service : forall fs lm data ep, Forall (bal_ok fs 
   + t_used_src_srv ep j ILU = t_used_src ep j.
 Proof. exact t_used_src_by_srv. Qed.
 
+(** produced-and-used energy by source adds up to the produced-and-used energy, at every step of every carrier, for every
+    component set with non-negative values (values of any size: the by-source share is a plain ratio since fix c3bd83b) *)
+Theorem C04_used_by_source_total : forall cr lm data, nonneg_data data ->
+  forall s, In s (cx_steps (mk_ctx cr lm data)) ->
+  s_used_src s EL_INSITU + s_used_src s EL_COGEN + s_used_src s PS_TERMOSOLAR + s_used_src s PS_EAMBIENTE = s_used s.
+Proof.
+  intros cr lm data Hn s Hs. apply steps_inv in Hs as (t & ->).
+  exact (used_src_sum_any (cx_prio (mk_ctx cr lm data)) lm _ (col_at_ok cr data t Hn)).
+Qed.
+
 Theorem C04_delivered_exported : forall ep,
   t_del ep = t_del_grid ep + t_del_onst ep + t_cgnus ep /\ t_exp ep = t_exp_grid ep + t_exp_ne ep.
 Proof. intros. split; [apply t_del_parts|apply t_exp_parts]. Qed.
@@ -176,3 +186,4 @@ Print Assumptions C04_area_rows.
 Print Assumptions C04_area_div.
 Print Assumptions C04_area_only.
 Print Assumptions C04_area_indep.
+Print Assumptions C04_used_by_source_total.
